@@ -5,11 +5,13 @@ package main
 import (
 	"fmt"
 	"regexp"
+	"strings"
 
 	"github.com/mimecast/dtail/internal/clients"
 	clientHandlers "github.com/mimecast/dtail/internal/clients/handlers"
 	"github.com/mimecast/dtail/internal/config"
 	"github.com/mimecast/dtail/internal/lcontext"
+	"github.com/mimecast/dtail/internal/regex"
 	serverHandlers "github.com/mimecast/dtail/internal/server/handlers"
 )
 
@@ -74,5 +76,76 @@ func init() {
 		sh.Shutdown()
 		ch.Shutdown()
 		return fmt.Sprintf("%s;modes=%v,%v,%v", renderCaptured(cmds), q, p, s)
+	}
+
+	// c12.select <lines: hex,hex,..> <requests: inv:patternhex;...>
+	// several requests decoded in ONE process (as a server does for its sessions): for each, the client
+	// builds its regex, serialises it, the server deserialises it; only after ALL are decoded is every
+	// retained filter evaluated on the sample lines.  Output: raw RE2 verdicts ; client bits , server bits.
+	ops["c12.select"] = func(a []string) string {
+		var lines [][]byte
+		for _, l := range strings.Split(a[0], ",") {
+			lines = append(lines, unhex(l))
+		}
+		type pair struct {
+			cl, sv regex.Regex
+			raw    *regexp.Regexp
+			bad    string
+		}
+		var ps []pair
+		for _, r := range strings.Split(a[1], ";") {
+			f := strings.SplitN(r, ":", 2)
+			pat := string(unhex(f[1]))
+			raw, err := regexp.Compile(pat)
+			if err != nil {
+				ps = append(ps, pair{bad: "E"})
+				continue
+			}
+			flag := regex.Default
+			if f[0] == "1" {
+				flag = regex.Invert
+			}
+			cl, err := regex.New(pat, flag)
+			if err != nil {
+				ps = append(ps, pair{bad: "client-error"})
+				continue
+			}
+			ser, err := cl.Serialize()
+			if err != nil {
+				ps = append(ps, pair{bad: "serialize-error"})
+				continue
+			}
+			sv, err := regex.Deserialize(ser)
+			if err != nil {
+				ps = append(ps, pair{bad: "deserialize-error"})
+				continue
+			}
+			ps = append(ps, pair{cl: cl, sv: sv, raw: raw})
+		}
+		bits := func(m func([]byte) bool) string {
+			var sb strings.Builder
+			for _, l := range lines {
+				if m(l) {
+					sb.WriteByte('1')
+				} else {
+					sb.WriteByte('0')
+				}
+			}
+			if sb.Len() == 0 {
+				return "-"
+			}
+			return sb.String()
+		}
+		var raws, acts []string
+		for _, p := range ps {
+			if p.bad != "" {
+				raws = append(raws, p.bad)
+				acts = append(acts, p.bad)
+				continue
+			}
+			raws = append(raws, bits(p.raw.Match))
+			acts = append(acts, bits(p.cl.Match)+","+bits(p.sv.Match))
+		}
+		return strings.Join(raws, "|") + ";" + strings.Join(acts, "|")
 	}
 }
